@@ -590,3 +590,16 @@ package ast
 //@   pure
 //@   ensures [pos] pos == s.p
 //@   safety C13
+
+// the reference-collection pass of the optimizer (C13: no panic on any tree the front-end builds)
+//@ pred InnerOK(m map[string]map[string]struct{}) bool = forall k string :: {has(m, k)} has(m, k) ==> m[k] != nil
+//@ func set(m map[string]map[string]struct{}, src string, dst string)
+//@   requires [ctx] m != nil && InnerOK(m)
+//@   modifies mapof(m), all map[string]struct{}
+//@   ensures [added C09] has(m, src) && has(m[src], dst) && InnerOK(m)
+//@   safety C13
+//@ func (r *grammarOptimizer) init(expr Expression) (w Visitor)
+//@   requires [node] OptOK(r) && r.rules != nil && InnerOK(r.ruleUsesRules) && InnerOK(r.ruleUsedByRules) && r.ruleUsesRules != r.ruleUsedByRules && (expr == nil || IsWalkNode(expr)) && TreeWF()
+//@   modifies Opt
+//@   ensures [kept C13] InnerOK(r.ruleUsesRules) && InnerOK(r.ruleUsedByRules)
+//@   safety C13
